@@ -162,11 +162,14 @@ class EncodeState:
 
             # make sure that the value can be represented using the
             # available bits including the sign
-            if bit_length > 0 and base_type_encoding in (None, Encoding.TWOC, Encoding.ONEC,
-                                                         Encoding.SM):
-                max_value = (1 << (bit_length - 1)) - 1
-                min_value = -max_value - 1 if base_type_encoding in (None,
-                                                                     Encoding.TWOC) else -max_value
+            if base_type_encoding in (None, Encoding.TWOC, Encoding.ONEC, Encoding.SM):
+                if bit_length > 0:
+                    max_value = (1 << (bit_length - 1)) - 1
+                    min_value = -max_value - 1 if base_type_encoding in (
+                        None, Encoding.TWOC) else -max_value
+                else:
+                    # objects without any bits can only represent zero
+                    max_value = min_value = 0
                 if internal_value < min_value or internal_value > max_value:
                     odxraise(
                         f"The value '{internal_value!r}' cannot be encoded using "
